@@ -109,7 +109,7 @@ func runC10(r *ev.Run) {
 		"(after each create x4, after WriteTo, after each gzip close x4, after add-to-manager, compaction written/added/removed, before every file removal) = one image per file-operation boundary; for every file that is not yet complete at a boundary " +
 		"the engine additionally emits EVERY byte prefix between its size at the boundary and its final size (files here are < 4 KiB), one file at a time. Every distinct image is reopened with fresh templates (LOCK removed): Open and one query per modality must succeed, " +
 		"every durable document must be found, no never-added id may appear, a segment with a missing / empty / truncated component must contribute nothing, an intact new segment all or nothing, and a new flush must use an id larger than every id in the image's file names. " +
-		"non-trivial = image taken at a boundary strictly inside the interrupted operation with >=1 durable document; distinct by image digest"
+		"non-trivial = image taken at a boundary strictly inside the interrupted operation with >=1 durable document; distinct by image digest Since the seed waves: a second clean restart on every boundary image (and every fifth prefix image in the quick tier), reopen -> compaction -> restart -> flush id check on a fresh copy, rotation before completed flushes, ack-then-crash also reopens after a clean Close."
 	r.Assumptions = []string{"process death keeps what reached the page cache: a crash image is the directory content at that instant (no power-loss / fsync semantics, which the property does not cover)",
 		"files are written strictly sequentially, so every intermediate on-disk state of a file is a prefix of its final content"}
 	nCases := r.Pick(8, 60)
